@@ -362,3 +362,20 @@ prop('C20',
      level_note='Trusted: Lean kernel, standard axioms, harness, the Python enumeration oracle.',
      technique='Lean 4 forest-completeness proof + expansion of the real forest compared with brute-force derivations + visitor termination runs',
      design_ref='DESIGN.md §5 C20')
+
+prop('C19',
+     modules=['LarkVerif.Recons', 'LarkVerif.Props.C19'],
+     theorems=['Props.C19.emitted_tokens_reparse_to_the_tree', 'Props.C19.assembly_only_inserts_blanks', 'Props.C19.identifiers_are_separated'],
+     fingerprints=['lark/reconstruct.py:Reconstructor.reconstruct', 'lark/reconstruct.py:Reconstructor._reconstruct', 'lark/tree_matcher.py:TreeMatcher.match_tree', 'lark/tree_matcher.py:TreeMatcher._build_recons_rules'],
+     rule='random feature-rich grammars (C03 generator, maybe_placeholders=False; 40% with multi-character keywords, identifiers, numbers and punctuation to exercise the spacing rule) filtered to the supported class (every '
+          'filtered terminal a string literal, every alternative keeps an unfiltered symbol other than the rule itself, no derivation cycle, input unambiguous by Earley explicit) x {lalr, earley}: for each parse tree of a sampled '
+          'sentence, parse(reconstruct(tree)) must equal the tree; the list of items the Reconstructor emits is passed to the Lean joinItems (identifier characters taken from lark\'s is_id_continue) and the assembled text compared. '
+          'Non-trivial = more than one emitted item; distinct by canonical hash.',
+     not_proved=['that the tree matcher returns a derivation whose shape is the tree (hypothesis hrec of the composition theorem) is not modelled; it is observed through the round trip',
+                 'lexical separability of adjacent tokens after assembly (JoinSafe) is a hypothesis: known finding F7 shows it can fail for multi-character punctuation; the generator keeps punctuation single-character'],
+     assumptions=['terminal sets of the generator are lexically separable under the spacing rule (outside F7)'],
+     level_text='Theorems: composition (sound+complete parser, unambiguous grammar, reconstructor returning a derivation with the tree\'s shape => re-parse gives the tree); the assembly loop only inserts blanks and never glues identifier '
+                'characters of consecutive tokens. The Lean assembly function runs on the items the real Reconstructor emits; the round trip is checked on random supported-class grammars. Partial: the matcher itself is not modelled.',
+     level_note='Trusted: Lean kernel, standard axioms, harness. Modelled not verified: TreeMatcher (an Earley parse over tree children), unicode is_id_continue.',
+     technique='Lean 4 composition theorem + model of the text-assembly loop; round-trip differential testing on the supported grammar class',
+     design_ref='DESIGN.md §5 C19')
